@@ -17,7 +17,7 @@
     average is the entrywise mean of the path-sum matrices; the bags are, as a set of sets,
     the groups of tips joined by branches shorter than the threshold. *)
 From Coq Require Import String ZArith QArith Bool Arith List.
-From GT Require Import Base.Sexp Base.UTree Base.Codec Spec.Obs Spec.Cut Model.Reroot Model.Matrix Model.Consensus Judge.Common.
+From GT Require Import Base.Sexp Base.UTree Base.Codec Spec.Obs Spec.Cut Model.Reroot Model.Matrix Model.C14Extra8 Model.Consensus Judge.Common.
 Import ListNotations.
 Local Close Scope Q_scope.
 Local Open Scope string_scope.
@@ -191,14 +191,22 @@ Definition judge_avg (c o : sexp) : verdict :=
                 | t :: r => forallb (fun t' => list_eqb String.eqb (ssort (leaves t)) (ssort (leaves t'))) r
                 end in
     match get_string "panic" o with
-    | Some p => if dom && same then VOracle ("crash: " ++ p) else VCorr ("crash: " ++ p)
+    | Some p => if dom && same then VOracle ("crash: " ++ p) else
+                (* other taxa (outside the property): the exact model of the two loops of AvgDistanceMatrix
+                   (Model/C14Extra8.v) says whether the code indexes out of range *)
+                match avg_matrix_x m ts with
+                | APanic => if String.prefix "runtime error: index out of range" p
+                            then VOk true "avg:crash:outside" else VCorr ("crash: " ++ p)
+                | _ => VCorr ("crash: " ++ p)
+                end
     | None =>
       match get_string "err" o with
       | None => VBad "no err in observation"
       | Some gerr =>
         if negb (forallb model_dom ts) then VBad "case outside the model's domain (duplicate tip names)" else
         match avg_matrix m ts with
-        | Err e =>
+        | Err e0 =>
+          let e := match avg_matrix_x m ts with AErr e2 => e2 | _ => e0 end in
           if String.eqb gerr "" then VCorr ("model refuses (" ++ e ++ "), implementation succeeds")
           else if negb (String.eqb gerr e) then VCorr ("model error: " ++ e ++ " / implementation error: " ++ gerr)
           else if dom && same then VOracle ("average refused on the same taxa: " ++ gerr)
